@@ -1,26 +1,25 @@
 /-
   Kernel-checked tie (C19): `(*Pll).Do` of core/sync/adjustments/pll.go as regenerated from
-  /repo's Go source on every run (Gen/Leaf.lean, sixth generation of the leaf translator: tagged
-  switch, `l.mode++`, `l.clk.Epoch()` / `l.clk.Now()` / `math.Pow(…)` as parameters — one value per
-  call —, `l.clk.Step` / `l.clk.Adjust` as recorded actions, the four panics as `none`, log
-  statements skipped) agrees with the hand-written model `Pll.step` that every C19 theorem is
-  about: same new state, same calls on the clock in the same order, panic exactly when the model
-  panics.
+  /repo's Go source on every run (Gen/Leaf.lean, leaf translator: tagged switch, `l.mode++`,
+  `l.clk.Epoch()` / `l.clk.Now()` / `math.Pow(…)` as parameters — one value per call —,
+  `l.clk.Step` / `l.clk.Adjust` as recorded actions, the four panics as `none`, log statements
+  skipped) agrees with the hand-written model `Pll.step` that every C19 theorem is about: same new
+  state, same calls on the clock in the same order, panic exactly when the model panics.
 
-  FULL STATEMENT (wanted):  ∀ l off w e now pw,
-      Agree (adjustments_Pll_Do l off w e now pw) (Pll.step (pl l) e.toNat now off.toInt w pw)
+  PROVED (`C19_leaf_Do`), for ALL inputs:
+      ∀ l off w e now pw,
+        Agree (adjustments_Pll_Do l off w e now pw) (Pll.step (pl l) e.toNat now off.toInt w pw)
+  — every mode (start-up, awaiting step, awaiting PLL, tracking, unexpected), the epoch test, all
+  three gain regimes of the tracking mode (weight < 50, < 150, the stiffening with `math.Pow`), the
+  integrator, the clamp to ±500 ppm × ⌈dt⌉, `timemath.Duration`, the `d > 0` guard of `Adjust`, the
+  three clock panics and the default panic.
 
-  PROVED (`C19_leaf_Do_partial`): the same under the hypothesis
-      `F64.lt w wLow = true  ∨  l.mode ≠ 3  ∨  (l.epoch != e) = true`,
-  i.e. for every update that restarts the start-up sequence (epoch change), every update in the
-  modes start-up / awaiting step / awaiting PLL / an unexpected mode (the step decision, the 2 s
-  and 6 s waits, the |offset| > 1 ms test, the three clock panics of those modes, the default
-  panic), and every TRACKING update with weight < 50 (integrator, clamp to ±500 ppm x ceil(dt),
-  the Adjust guard d > 0, both clock panics of the tracking mode).
-  MISSING: tracking updates with weight ≥ 50 (the two other gain regimes, incl. the stiffening
-  with math.Pow): the case analysis did not finish within the elaborator's budget in the time
-  available. For those the tie remains the bit-exact differential run of harness c19 and the
-  extractor pins of Props/C19.lean.
+  How: the generated definition is cut, by `rfl` (`do_pieces`), into the pieces the model is made
+  of (`gSync`, `gMode0..3`, `gGains`, `gTrack`, `gFinish`), the model likewise (`step_pieces`), and
+  each piece is proved equal to its counterpart by a case split of at most four conditions. A change
+  of `Pll.Do` in /repo changes Gen/Leaf.lean; then `do_pieces` (shape) or a piece lemma (content) no
+  longer checks. The whole file elaborates in a few seconds (it replaced a monolithic `simp` proof
+  that took 2.5 minutes and covered only weight < 50).
 -/
 import ScionTime.Gen.Leaf
 import ScionTime.Model.Pll
@@ -116,79 +115,388 @@ theorem gz : F64.gt fzero fzero = false := by decide +kernel
 theorem uint64_ne (a b : UInt64) (h : (a != b) = true) : a.toNat ≠ b.toNat := by
   rw [bne_iff_ne] at h; exact fun hh => h (UInt64.toNat_inj.mp hh)
 
-attribute [local irreducible] F64.ofConst F64.ofInt F64.roundNE F64.mul F64.add F64.div F64.lt F64.gt F64.ceil F64.durationSeconds F64.toDuration F64.toInt64 in
-set_option maxHeartbeats 2000000 in
-theorem C19_leaf_Do_partial (l : S_Pll) (off : Int64) (w : F64.F64) (e : UInt64) (now : Int) (pw : F64.F64)
-    (hw : F64.lt w wLow = true ∨ l.mode ≠ 3 ∨ (l.epoch != e) = true) :
-    Agree (adjustments_Pll_Do l off w e now pw) (step (pl l) e.toNat now off.toInt w pw) := by
-  by_cases he : (l.epoch != e) = true
-  · -- the clock's epoch moved: restart
-    have he' : ¬ l.epoch.toNat = e.toNat := uint64_ne _ _ he
-    simp only [adjustments_Pll_Do, step, syncEpoch, finish, pl, he, he', if_true, ne_eq, not_false_eq_true,
-      beq_self_eq_true, k0, gz, Bool.false_eq_true, if_false, Agree, act, List.map_nil]
-    simp [Agree, pl, act]
-  · have heq : l.epoch = e := by
-      have : (l.epoch != e) = false := by simpa using he
-      simpa using this
-    have he' : l.epoch.toNat = e.toNat := by rw [heq]
-    have heb : (l.epoch != e) = false := by simp [heq]
-    by_cases hm0 : l.mode = 0
-    · simp only [adjustments_Pll_Do, step, syncEpoch, finish, pl, heb, he', hm0, ne_eq, not_true_eq_false,
-        if_false, beq_self_eq_true, if_true, k0, gz, Bool.false_eq_true, Agree]
-      simp [Agree, pl, act, hm0, he']
-    · by_cases hm1 : l.mode = 1
-      · have b0 : (l.mode == 0) = false := by simp [hm1]
-        have t1 : l.mode.toNat = 1 := by rw [hm1]; rfl
-        simp only [adjustments_Pll_Do, step, syncEpoch, finish, pl, heb, he', hm1, t1, ne_eq, not_true_eq_false,
-          if_false, beq_self_eq_true, if_true, k0, k3, gz, Bool.false_eq_true, b0,
-          Int64.lt_iff_toInt_lt, sub_eq, c0i, c2s, c1ms, abs_eq, inv_eq, gt_iff_lt,
-          Bool.and_eq_true, decide_eq_true_eq]
-        repeat' split
-        all_goals simp_all [Agree, pl, act, inv_eq]
-      · by_cases hm2 : l.mode = 2
-        · have b0 : (l.mode == 0) = false := by simp [hm2]
-          have b1 : (l.mode == 1) = false := by simp [hm2]
-          have t2 : l.mode.toNat = 2 := by rw [hm2]; rfl
-          simp only [adjustments_Pll_Do, step, syncEpoch, finish, pl, heb, he', hm2, t2, ne_eq, not_true_eq_false,
-            if_false, beq_self_eq_true, if_true, k0, k60, kPInit, gz, Bool.false_eq_true, b0, b1,
-            Int64.lt_iff_toInt_lt, sub_eq, c0i, c6s, gt_iff_lt, Bool.and_eq_true, decide_eq_true_eq]
-          repeat' split
-          all_goals simp_all [Agree, pl, act]
-        · by_cases hm3 : l.mode = 3
-          · have b0 : (l.mode == 0) = false := by simp [hm3]
-            have b1 : (l.mode == 1) = false := by simp [hm3]
-            have b2 : (l.mode == 2) = false := by simp [hm3]
-            have t3 : l.mode.toNat = 3 := by rw [hm3]; rfl
-            by_cases q50 : F64.lt w wLow = true
-            · simp only [adjustments_Pll_Do, step, syncEpoch, finish, track, gains, clamp, pl, heb, he', hm3, t3, ne_eq,
-                not_true_eq_false, if_false, beq_self_eq_true, if_true, k0, k50, k150, rbLow, rslewPos, kaMid, kNeg, kaLow, kbMid, gz,
-                Bool.false_eq_true, b0, b1, b2, Int64.lt_iff_toInt_lt, sub_eq, c0i, c300, gt_iff_lt, Bool.and_eq_true,
-                decide_eq_true_eq, inv_eq, dur_eq, q50]
-              repeat' split
-              all_goals simp_all [Agree, pl, act, inv_eq, dur_eq, rbLow, rslewPos]
-            · rcases hw with hw | hw | hw
-              · exact absurd hw q50
-              · exact absurd hm3 hw
-              · exact absurd hw he
-          · -- default: panic("unexpected PLL mode")
-            have n0 : ¬ l.mode.toNat = 0 := fun h => hm0 (UInt64.toNat_inj.mp (by rw [h]; rfl))
-            have n1 : ¬ l.mode.toNat = 1 := fun h => hm1 (UInt64.toNat_inj.mp (by rw [h]; rfl))
-            have n2 : ¬ l.mode.toNat = 2 := fun h => hm2 (UInt64.toNat_inj.mp (by rw [h]; rfl))
-            have n3 : ¬ l.mode.toNat = 3 := fun h => hm3 (UInt64.toNat_inj.mp (by rw [h]; rfl))
-            have b0 : (l.mode == 0) = false := by simpa using hm0
-            have b1 : (l.mode == 1) = false := by simpa using hm1
-            have b2 : (l.mode == 2) = false := by simpa using hm2
-            have b3 : (l.mode == 3) = false := by simpa using hm3
-            simp only [adjustments_Pll_Do, step, syncEpoch, pl, heb, he', ne_eq, not_true_eq_false, if_false,
-              Bool.false_eq_true, b0, b1, b2, b3, n0, n1, n2, n3, Agree]
 
-/-- the hypothesis is satisfiable in each of its three forms, and the generated definition steps
-    the clock in the awaiting-step mode (non-vacuity; a 5 ms offset, weight 1000, 3 s after the
-    start of the epoch) -/
+/-! ### the generated definition, cut into the pieces the model is made of (by `rfl`) -/
+
+/-- the epoch test at the top of `Do` -/
+def gSync (l : S_Pll) (e : UInt64) : S_Pll :=
+  if (l.epoch != e) then
+    let l : S_Pll := { l with epoch := e }
+    let l : S_Pll := { l with mode := (0 : UInt64) }
+    l
+  else
+    l
+
+/-- the tail after the switch: `l.t = now`, `if d > 0.0 { l.clk.Adjust(…) }` -/
+def gFinish (l : S_Pll) (now : Int) (p d : F64.F64) (acts : List Go.ClkAction) :
+    Option (S_Pll × List Go.ClkAction) :=
+  let l : S_Pll := { l with t := now }
+  let acts :=
+    if (F64.gt d (F64.ofInt 0)) then
+      let acts : List Go.ClkAction := acts ++ [(Go.ClkAction.adjust (timemath_Duration p) (timemath_Duration d) l.i)]
+      acts
+    else
+      acts
+  some ((l, acts))
+
+/-- the gain selection of `case 3` -/
+def gGains (l : S_Pll) (mdt : Int64) (weight pw : F64.F64) : F64.F64 × F64.F64 × S_Pll :=
+  if (F64.lt weight (F64.ofInt 50)) then
+    let a : F64.F64 := (F64.ofConst (3) 100)
+    let b : F64.F64 := (F64.ofConst (1) 2000)
+    (a, b, l)
+  else
+    let (a, b, l) :=
+      if (F64.lt weight (F64.ofInt 150)) then
+        let a : F64.F64 := (F64.ofConst (3) 50)
+        let b : F64.F64 := (F64.ofConst (1) 1000)
+        (a, b, l)
+      else
+        let l :=
+          if ((decide (mdt > (300000000000 : Int64))) && (F64.gt l.a (F64.ofConst (3) 100))) then
+            let l : S_Pll := { l with a := (F64.mul l.a pw) }
+            let l : S_Pll := { l with b := (F64.mul l.b pw) }
+            l
+          else
+            l
+        let a : F64.F64 := l.a
+        let b : F64.F64 := l.b
+        (a, b, l)
+    (a, b, l)
+
+/-- `case 3` after the gain selection: p, d, the integrator, the clamp, the tail -/
+def gTrack (l : S_Pll) (a b dt : F64.F64) (offset : Int64) (now : Int) : Option (S_Pll × List Go.ClkAction) :=
+  let p : F64.F64 := (F64.mul (F64.durationSeconds ((timemath_Inv offset)).toInt) a)
+  let d : F64.F64 := (F64.ceil dt)
+  let l : S_Pll := { l with i := (F64.add l.i (F64.mul p b)) }
+  let p :=
+    if (F64.gt p (F64.mul d (F64.ofConst (1) 2000))) then
+      let p : F64.F64 := (F64.mul d (F64.ofConst (1) 2000))
+      p
+    else
+      p
+  let p :=
+    if (F64.lt p (F64.mul d (F64.ofConst (-1) 2000))) then
+      let p : F64.F64 := (F64.mul d (F64.ofConst (-1) 2000))
+      p
+    else
+      p
+  gFinish l now p d []
+
+def gMode0 (l : S_Pll) (now : Int) : Option (S_Pll × List Go.ClkAction) :=
+  let l : S_Pll := { l with t0 := now }
+  let l : S_Pll := { l with mode := l.mode + (1 : UInt64) }
+  gFinish l now (F64.ofInt 0) (F64.ofInt 0) []
+
+def gMode1 (l : S_Pll) (offset : Int64) (weight : F64.F64) (now : Int) : Option (S_Pll × List Go.ClkAction) :=
+  let mdt : Int64 := (Go.Time.sub now l.t0)
+  if (decide (mdt < (0 : Int64))) then
+    none
+  else
+    let (acts, l) :=
+      if ((decide (mdt > ((2 : Int64) * (1000000000 : Int64)))) && (F64.gt weight (F64.ofInt 3))) then
+        let acts :=
+          if (decide ((Go.Duration.abs offset) > ((1 : Int64) * (1000000 : Int64)))) then
+            let acts : List Go.ClkAction := [] ++ [(Go.ClkAction.step (timemath_Inv offset))]
+            acts
+          else
+            []
+        let l : S_Pll := { l with t0 := now }
+        let l : S_Pll := { l with mode := l.mode + (1 : UInt64) }
+        (acts, l)
+      else
+        ([], l)
+    gFinish l now (F64.ofInt 0) (F64.ofInt 0) acts
+
+def gMode2 (l : S_Pll) (now : Int) : Option (S_Pll × List Go.ClkAction) :=
+  let mdt : Int64 := (Go.Time.sub now l.t0)
+  if (decide (mdt < (0 : Int64))) then
+    none
+  else
+    let l :=
+      if (decide (mdt > ((6 : Int64) * (1000000000 : Int64)))) then
+        let l : S_Pll := { l with a := (F64.ofConst (33) 100) }
+        let l : S_Pll := { l with b := (F64.div l.a (F64.ofInt 60)) }
+        let l : S_Pll := { l with t0 := now }
+        let l : S_Pll := { l with mode := l.mode + (1 : UInt64) }
+        l
+      else
+        l
+    gFinish l now (F64.ofInt 0) (F64.ofInt 0) []
+
+def gMode3 (l : S_Pll) (offset : Int64) (weight : F64.F64) (now : Int) (pw : F64.F64) :
+    Option (S_Pll × List Go.ClkAction) :=
+  let mdt : Int64 := (Go.Time.sub now l.t0)
+  if (decide (mdt < (0 : Int64))) then
+    none
+  else
+    let dt : F64.F64 := (F64.durationSeconds ((Go.Time.sub now l.t)).toInt)
+    if (F64.lt dt (F64.ofInt 0)) then
+      none
+    else
+      let (a, b, l) := gGains l mdt weight pw
+      gTrack l a b dt offset now
+
+/-- The generated `(*Pll).Do` IS the composition of the pieces above — definitional equality,
+    re-checked against the regenerated definition on every run. -/
+theorem do_pieces (l : S_Pll) (off : Int64) (w : F64.F64) (e : UInt64) (now : Int) (pw : F64.F64) :
+    adjustments_Pll_Do l off w e now pw =
+      (let offset := timemath_Inv off
+       let l := gSync l e
+       if (l.mode == (0 : UInt64)) then gMode0 l now
+       else if (l.mode == (1 : UInt64)) then gMode1 l offset w now
+       else if (l.mode == (2 : UInt64)) then gMode2 l now
+       else if (l.mode == (3 : UInt64)) then gMode3 l offset w now pw
+       else none) := rfl
+
+/-! ### each piece agrees with its counterpart in Model/Pll.lean -/
+
+theorem pl_sync (l : S_Pll) (e : UInt64) : pl (gSync l e) = syncEpoch (pl l) e.toNat := by
+  unfold gSync syncEpoch
+  by_cases he : (l.epoch != e) = true
+  · have he' : (pl l).epoch ≠ e.toNat := uint64_ne _ _ he
+    rw [if_pos he, if_pos he']; rfl
+  · have heq : l.epoch = e := by simpa using he
+    have he' : ¬ (pl l).epoch ≠ e.toNat := by simp [pl, heq]
+    rw [if_neg he, if_neg he']
+
+theorem finish_agree (l : S_Pll) (now : Int) (p d : F64.F64) (acts : List Go.ClkAction) :
+    Agree (gFinish l now p d acts) (finish (pl l) now p d (acts.map act)) := by
+  unfold gFinish finish
+  rw [k0]
+  by_cases hd : F64.gt d fzero = true
+  · simp only [hd, if_true, Agree, pl, act, dur_eq, List.map_append, List.map_cons, List.map_nil, and_self]
+  · simp only [hd, if_false, Agree, pl, Bool.false_eq_true, and_self]
+
+theorem mode_succ (l : S_Pll) (k : Nat) (hk : k < 3) (h : l.mode = UInt64.ofNat k) :
+    (l.mode + 1).toNat = l.mode.toNat + 1 := by
+  rw [h]
+  have : k = 0 ∨ k = 1 ∨ k = 2 := by omega
+  rcases this with rfl | rfl | rfl <;> rfl
+
+theorem gains_agree (l : S_Pll) (mdt : Int64) (w pw : F64.F64) :
+    (gGains l mdt w pw).1 = (gains (pl l) mdt.toInt w pw).2.1 ∧
+    (gGains l mdt w pw).2.1 = (gains (pl l) mdt.toInt w pw).2.2 ∧
+    pl (gGains l mdt w pw).2.2 = (gains (pl l) mdt.toInt w pw).1 := by
+  unfold gGains gains
+  rw [k50, k150, kbLow, kaMid, kaLow, kbMid]
+  by_cases h50 : F64.lt w wLow = true
+  · simp only [h50, if_true, rbLow, and_self]
+  · by_cases h150 : F64.lt w wHigh = true
+    · simp only [h50, h150, if_true, if_false, Bool.false_eq_true, and_self]
+    · have hc : (decide (mdt > (300000000000 : Int64)) && F64.gt l.a aLow) =
+          decide (mdt.toInt > captureTime ∧ F64.gt l.a pLimit = true) := by
+        rw [Bool.eq_iff_iff]
+        simp only [Bool.and_eq_true, decide_eq_true_eq, gt_iff_lt, Int64.lt_iff_toInt_lt, c300]
+        exact Iff.rfl
+      by_cases hs : (mdt.toInt > captureTime ∧ F64.gt l.a pLimit = true)
+      · have hc' := hc; rw [decide_eq_true hs] at hc'
+        simp only [h50, h150, if_false, Bool.false_eq_true, hc', if_true, pl, hs, and_self]
+      · have hc' := hc; rw [decide_eq_false hs] at hc'
+        simp only [h50, h150, if_false, Bool.false_eq_true, hc', pl, hs, and_self]
+
+theorem track_agree (l : S_Pll) (a b dt : F64.F64) (offset : Int64) (now : Int) :
+    Agree (gTrack l a b dt offset now)
+      (finish { pl l with i := F64.add (pl l).i (F64.mul (F64.mul (F64.durationSeconds (inv offset.toInt)) a) b) }
+        now (clamp (F64.mul (F64.durationSeconds (inv offset.toInt)) a) (F64.ceil dt)) (F64.ceil dt) []) := by
+  have h := finish_agree
+    { l with i := F64.add l.i (F64.mul (F64.mul (F64.durationSeconds (inv offset.toInt)) a) b) } now
+    (clamp (F64.mul (F64.durationSeconds (inv offset.toInt)) a) (F64.ceil dt)) (F64.ceil dt) []
+  unfold gTrack
+  rw [inv_eq, ← rslewPos, kNeg]
+  exact h
+
+/-- `case 3` of the model, as a function of the state after the epoch test -/
+def mMode3 (s : State) (now : Int) (offset : Int) (w pw : F64.F64) : Outcome :=
+  let mdt := timeSub now s.t0
+  if mdt < 0 then .panic .clock
+  else
+    let dt := F64.durationSeconds (timeSub now s.t)
+    if F64.lt dt fzero then .panic .clock
+    else track s now mdt dt offset w pw
+
+theorem mode3_agree (l : S_Pll) (offset : Int64) (w : F64.F64) (now : Int) (pw : F64.F64) :
+    Agree (gMode3 l offset w now pw) (mMode3 (pl l) now offset.toInt w pw) := by
+  unfold gMode3 mMode3
+  simp only [Int64.lt_iff_toInt_lt, sub_eq, c0i, k0, decide_eq_true_eq]
+  have ht0 : (pl l).t0 = l.t0 := rfl
+  have ht : (pl l).t = l.t := rfl
+  rw [ht0, ht]
+  by_cases h1 : timeSub now l.t0 < 0
+  · rw [if_pos h1, if_pos h1]; trivial
+  · rw [if_neg h1, if_neg h1]
+    by_cases h2 : F64.lt (F64.durationSeconds (timeSub now l.t)) fzero = true
+    · simp only [h2, if_true]; trivial
+    · simp only [h2, if_false, Bool.false_eq_true]
+      obtain ⟨ga, gb, gl⟩ := gains_agree l (Go.Time.sub now l.t0) w pw
+      rw [sub_eq] at ga gb gl
+      have h := track_agree (gGains l (Go.Time.sub now l.t0) w pw).2.2 (gGains l (Go.Time.sub now l.t0) w pw).1
+        (gGains l (Go.Time.sub now l.t0) w pw).2.1 (F64.durationSeconds (timeSub now l.t)) offset now
+      unfold track
+      rcases hg : gains (pl l) (timeSub now l.t0) w pw with ⟨s, a, b⟩
+      rw [hg] at ga gb gl
+      simp only at ga gb gl ⊢
+      rw [gl, ga, gb] at h
+      rw [ga, gb]
+      exact h
+
+def mMode0 (s : State) (now : Int) : Outcome :=
+  finish { s with t0 := now, mode := s.mode + 1 } now fzero fzero []
+
+def mMode1 (s : State) (now : Int) (offset : Int) (w : F64.F64) : Outcome :=
+  let mdt := timeSub now s.t0
+  if mdt < 0 then .panic .clock
+  else if mdt > stepWait ∧ F64.gt w wStep = true then
+    let acts := if durAbs offset > stepThreshold then [Action.step (inv offset)] else []
+    finish { s with t0 := now, mode := s.mode + 1 } now fzero fzero acts
+  else finish s now fzero fzero []
+
+def mMode2 (s : State) (now : Int) : Outcome :=
+  let mdt := timeSub now s.t0
+  if mdt < 0 then .panic .clock
+  else if mdt > pllWait then
+    finish { s with a := pInit, b := F64.div pInit iInit, t0 := now, mode := s.mode + 1 } now fzero fzero []
+  else finish s now fzero fzero []
+
+/-- the model's `step` is the same composition (definitional) -/
+theorem step_pieces (s : State) (e : Nat) (now off : Int) (w pw : F64.F64) :
+    step s e now off w pw =
+      (let offset := inv off
+       let s := syncEpoch s e
+       if s.mode = 0 then mMode0 s now
+       else if s.mode = 1 then mMode1 s now offset w
+       else if s.mode = 2 then mMode2 s now
+       else if s.mode = 3 then mMode3 s now offset w pw
+       else .panic .mode) := rfl
+
+theorem mode0_agree (l : S_Pll) (now : Int) (hm : l.mode = 0) :
+    Agree (gMode0 l now) (mMode0 (pl l) now) := by
+  have h := finish_agree { l with t0 := now, mode := l.mode + 1 } now (F64.ofInt 0) (F64.ofInt 0) []
+  have hp : pl { l with t0 := now, mode := l.mode + 1 } = { pl l with t0 := now, mode := (pl l).mode + 1 } := by
+    simp only [pl, mode_succ l 0 (by omega) hm]
+  rw [hp, k0] at h
+  exact h
+
+theorem mode1_agree (l : S_Pll) (offset : Int64) (w : F64.F64) (now : Int) (hm : l.mode = 1) :
+    Agree (gMode1 l offset w now) (mMode1 (pl l) now offset.toInt w) := by
+  unfold gMode1 mMode1
+  simp only [Int64.lt_iff_toInt_lt, sub_eq, c0i, c2s, c1ms, k3, gt_iff_lt, decide_eq_true_eq, abs_eq,
+    Bool.and_eq_true, List.nil_append]
+  have ht0 : (pl l).t0 = l.t0 := rfl
+  rw [ht0]
+  by_cases h1 : timeSub now l.t0 < 0
+  · rw [if_pos h1, if_pos h1]; trivial
+  · rw [if_neg h1, if_neg h1]
+    by_cases h2 : stepWait < timeSub now l.t0 ∧ F64.gt w wStep = true
+    · rw [if_pos h2, if_pos h2]
+      have hp : pl { l with t0 := now, mode := l.mode + 1 } = { pl l with t0 := now, mode := (pl l).mode + 1 } := by
+        simp only [pl, mode_succ l 1 (by omega) hm]
+      by_cases h3 : stepThreshold < durAbs offset.toInt
+      · have h := finish_agree { l with t0 := now, mode := l.mode + 1 } now (F64.ofInt 0) (F64.ofInt 0)
+          [Go.ClkAction.step (timemath_Inv offset)]
+        rw [hp, k0] at h
+        simp only [h3, if_true, List.map_cons, List.map_nil, act, inv_eq] at h ⊢
+        exact h
+      · have h := finish_agree { l with t0 := now, mode := l.mode + 1 } now (F64.ofInt 0) (F64.ofInt 0) []
+        rw [hp, k0] at h
+        simp only [h3, if_false, List.map_nil] at h ⊢
+        exact h
+    · rw [if_neg h2, if_neg h2]
+      have h := finish_agree l now (F64.ofInt 0) (F64.ofInt 0) []
+      rw [k0] at h
+      exact h
+
+theorem mode2_agree (l : S_Pll) (now : Int) (hm : l.mode = 2) :
+    Agree (gMode2 l now) (mMode2 (pl l) now) := by
+  unfold gMode2 mMode2
+  simp only [Int64.lt_iff_toInt_lt, sub_eq, c0i, c6s, gt_iff_lt, decide_eq_true_eq]
+  have ht0 : (pl l).t0 = l.t0 := rfl
+  rw [ht0]
+  by_cases h1 : timeSub now l.t0 < 0
+  · rw [if_pos h1, if_pos h1]; trivial
+  · rw [if_neg h1, if_neg h1]
+    by_cases h2 : pllWait < timeSub now l.t0
+    · rw [if_pos h2, if_pos h2]
+      have h := finish_agree
+        { l with
+          a := F64.ofConst 33 100, b := F64.div (F64.ofConst 33 100) (F64.ofInt 60), t0 := now, mode := l.mode + 1 }
+        now (F64.ofInt 0) (F64.ofInt 0) []
+      have hp : pl
+          { l with
+            a := F64.ofConst 33 100, b := F64.div (F64.ofConst 33 100) (F64.ofInt 60), t0 := now, mode := l.mode + 1 } =
+          { pl l with a := pInit, b := F64.div pInit iInit, t0 := now, mode := (pl l).mode + 1 } := by
+        simp only [pl, mode_succ l 2 (by omega) hm, kPInit, k60]
+      rw [hp, k0] at h
+      exact h
+    · rw [if_neg h2, if_neg h2]
+      have h := finish_agree l now (F64.ofInt 0) (F64.ofInt 0) []
+      rw [k0] at h
+      exact h
+
+/-- **The tie, for all inputs**: the regenerated `(*Pll).Do` and the model `Pll.step` agree on
+    every state, offset, weight, clock epoch, clock reading and `math.Pow` result. -/
+theorem C19_leaf_Do (l : S_Pll) (off : Int64) (w : F64.F64) (e : UInt64) (now : Int) (pw : F64.F64) :
+    Agree (adjustments_Pll_Do l off w e now pw) (step (pl l) e.toNat now off.toInt w pw) := by
+  rw [do_pieces, step_pieces]
+  simp only
+  rw [← pl_sync, ← inv_eq]
+  generalize gSync l e = l'
+  have hmode : (pl l').mode = l'.mode.toNat := rfl
+  rw [hmode]
+  by_cases hm0 : l'.mode = 0
+  · have t : l'.mode.toNat = 0 := by rw [hm0]; rfl
+    simp only [hm0, beq_self_eq_true, if_true]
+    exact mode0_agree l' now hm0
+  · have n0 : ¬ l'.mode.toNat = 0 := fun h => hm0 (UInt64.toNat_inj.mp (by rw [h]; rfl))
+    have b0 : (l'.mode == 0) = false := by simpa using hm0
+    rw [b0, if_neg n0]
+    simp only [Bool.false_eq_true, if_false]
+    by_cases hm1 : l'.mode = 1
+    · have t : l'.mode.toNat = 1 := by rw [hm1]; rfl
+      have b1 : (l'.mode == 1) = true := by simp [hm1]
+      rw [b1, if_pos t]
+      exact mode1_agree l' _ w now hm1
+    · have n1 : ¬ l'.mode.toNat = 1 := fun h => hm1 (UInt64.toNat_inj.mp (by rw [h]; rfl))
+      have b1 : (l'.mode == 1) = false := by simpa using hm1
+      rw [b1, if_neg n1]
+      simp only [Bool.false_eq_true, if_false]
+      by_cases hm2 : l'.mode = 2
+      · have t : l'.mode.toNat = 2 := by rw [hm2]; rfl
+        have b2 : (l'.mode == 2) = true := by simp [hm2]
+        rw [b2, if_pos t]
+        exact mode2_agree l' now hm2
+      · have n2 : ¬ l'.mode.toNat = 2 := fun h => hm2 (UInt64.toNat_inj.mp (by rw [h]; rfl))
+        have b2 : (l'.mode == 2) = false := by simpa using hm2
+        rw [b2, if_neg n2]
+        simp only [Bool.false_eq_true, if_false]
+        by_cases hm3 : l'.mode = 3
+        · have t : l'.mode.toNat = 3 := by rw [hm3]; rfl
+          have b3 : (l'.mode == 3) = true := by simp [hm3]
+          rw [b3, if_pos t]
+          exact mode3_agree l' _ w now pw
+        · have n3 : ¬ l'.mode.toNat = 3 := fun h => hm3 (UInt64.toNat_inj.mp (by rw [h]; rfl))
+          have b3 : (l'.mode == 3) = false := by simpa using hm3
+          rw [b3, if_neg n3]
+          trivial
+
+/-- non-vacuity: the generated definition steps the clock in the awaiting-step mode (a 5 ms offset,
+    weight 1000, 3 s after the start of the epoch) … -/
 example :
     (adjustments_Pll_Do { epoch := 7, mode := 1, t0 := 0, t := 0, a := fzero, b := fzero, i := fzero }
         5000000 (F64.ofInt 1000) 7 3000000000 (F64.ofInt 1)).map (·.2) =
       some [Go.ClkAction.step 5000000] := by
   decide +kernel
+
+/-- … and in the tracking mode with weight 1000 (the stiffening regime, 301 s after the start of
+    tracking, `math.Pow` = 1/2) it halves both gains, and slews by the clamp: 1 s offset after 16 s
+    gives `Adjust(8 ms, 16 s, ·)`. -/
+def demoTrack : Option (S_Pll × List Go.ClkAction) :=
+  adjustments_Pll_Do { epoch := 7, mode := 3, t0 := 0, t := 285000000000, a := pInit, b := bMid, i := fzero }
+    1000000000 (F64.ofInt 1000) 7 301000000000 (F64.ofConst 1 2)
+
+example : demoTrack.map (fun r => r.2.map (fun a => match a with
+    | .step o => [o] | .adjust o d _ => [o, d])) = some [[8000000, 16000000000]] := by decide +kernel
+example : demoTrack.map (fun r => r.1.a) = some (F64.mul pInit (F64.ofConst 1 2)) := by decide +kernel
+example : demoTrack.map (fun r => r.1.b) = some (F64.mul bMid (F64.ofConst 1 2)) := by decide +kernel
 
 end ScionTime.LeafTieC19
